@@ -41,6 +41,16 @@ static std::vector<uint8_t> valid_file (const Group &g, long long frames)
 {	MemFile m ; OpenSpec s ; s.format = g.format ; s.ch = g.ch ; s.rate = 8000 ;
 	SNDFILE *f = open_write_mem (m, s) ; if (!f) return {} ;
 	sf_set_string (f, SF_STR_TITLE, "a title") ; sf_set_string (f, SF_STR_COMMENT, "a comment") ;	// LIST / NAME / info chunks for the parsers to walk
+	// ... and instrument with loops, cue points, broadcast info where the container takes them (smpl / INST / MARK / cue / bext / chan chunks)
+	{	SF_INSTRUMENT in ; memset (&in, 0, sizeof (in)) ; in.gain = 1 ; in.basenote = 60 ; in.velocity_hi = 127 ; in.key_hi = 127 ; in.loop_count = 2 ;
+		in.loops [0].mode = SF_LOOP_FORWARD ; in.loops [0].start = 10 ; in.loops [0].end = 100 ; in.loops [0].count = 3 ; in.loops [1].mode = SF_LOOP_BACKWARD ; in.loops [1].start = 120 ; in.loops [1].end = 200 ; in.loops [1].count = 1 ;
+		sf_command (f, SFC_SET_INSTRUMENT, &in, sizeof (in)) ;
+		static SF_CUES cu ; memset (&cu, 0, sizeof (cu)) ; cu.cue_count = 3 ; for (uint32_t i = 0 ; i < 3 ; i++) { cu.cue_points [i].indx = (int) i + 1 ; cu.cue_points [i].sample_offset = 20 * i ; cu.cue_points [i].fcc_chunk = 0x61746164 ; snprintf (cu.cue_points [i].name, sizeof (cu.cue_points [i].name), "cue %u", i) ; }
+		sf_command (f, SFC_SET_CUE, &cu, sizeof (cu)) ;
+		static SF_BROADCAST_INFO b ; memset (&b, 0, sizeof (b)) ; strcpy (b.description, "a description") ; strcpy (b.originator, "someone") ; strcpy (b.coding_history, "A=PCM,F=8000\r\n") ; b.coding_history_size = (uint32_t) strlen (b.coding_history) ;
+		sf_command (f, SFC_SET_BROADCAST_INFO, &b, sizeof (b)) ;
+		if (g.ch == 2) { int map [2] = { SF_CHANNEL_MAP_LEFT, SF_CHANNEL_MAP_RIGHT } ; sf_command (f, SFC_SET_CHANNEL_MAP_INFO, map, sizeof (map)) ; }
+	}
 	std::vector<short> a ((size_t) frames * g.ch) ; Rng r (11) ; for (auto &x : a) x = (short) r.next () ;
 	sf_writef_short (f, a.data (), frames) ; sf_close (f) ;
 	return m.data ;
@@ -64,7 +74,8 @@ static std::string run_workload (const Group &g, MemFile &mf, long long frames, 
 	}
 	std::string bad ;
 	auto snap = [&] () { if (snapshot_at_fault && snapshot_at_fault->empty () && mf.fault_fired && !fired_before) *snapshot_at_fault = mf.data ; } ;
-	int wt = g.wt, wts = stype_size (wt) ;
+	bool no_audio = g.wl == W_WRITE && g.wt == 4 ;	// fifth variant of the write workload: metadata only, closed without any audio (sf_close then writes the header itself)
+	int wt = g.wt > 3 ? 0 : g.wt, wts = stype_size (wt) ;
 	const Codec *wcd = codec_of (g.format) ; bool wgran = mode == SFM_WRITE && is_granular (g.format) && wcd && wcd->granular && wcd->bytes > 0 ; long long wbw = wgran ? (long long) wcd->bytes * ch : 1 ;
 	auto do_write = [&] (long long fr)
 	{	std::vector<uint8_t> b ((size_t) fr * ch * wts) ;
@@ -114,7 +125,8 @@ static std::string run_workload (const Group &g, MemFile &mf, long long frames, 
 		sf_count_t got = sf_seek (f, off, whence) ; snap () ;
 		if (got != -1 && got != tgt) bad = "seek_result|target " + std::to_string ((long long) tgt) + " returned " + std::to_string ((long long) got) ;
 	} ;
-	if (g.wl == W_WRITE) { for (int k = 0 ; k < 3 && bad.empty () ; k++) do_write (k == 1 ? blk + 2 : blk) ; if (bad.empty ()) { sf_command (f, SFC_UPDATE_HEADER_NOW, nullptr, 0) ; snap () ; do_write (2) ; } if (bad.empty () && gran) do_write_raw (50) ; if (bad.empty () && gran) do_write_raw (3) ; }
+	if (no_audio) { sf_set_string (f, SF_STR_TITLE, "set before any audio") ; sf_set_string (f, SF_STR_COMMENT, "so that sf_close has a header to write") ; snap () ; }
+	else if (g.wl == W_WRITE) { for (int k = 0 ; k < 3 && bad.empty () ; k++) do_write (k == 1 ? blk + 2 : blk) ; if (bad.empty ()) { sf_command (f, SFC_UPDATE_HEADER_NOW, nullptr, 0) ; snap () ; do_write (2) ; } if (bad.empty () && gran) do_write_raw (50) ; if (bad.empty () && gran) do_write_raw (3) ; }
 	else if (g.wl == W_READ) { do_read (blk + blk / 2) ; if (bad.empty ()) do_seek (blk + 2, SEEK_SET) ; if (bad.empty () && gran) do_read_raw (5) ; if (bad.empty ()) do_read (3 * blk) ; if (bad.empty ()) { char log [256] ; sf_command (f, SFC_GET_LOG_INFO, log, sizeof (log)) ; double mx ; sf_command (f, SFC_CALC_SIGNAL_MAX, &mx, sizeof (mx)) ; snap () ; } }
 	else { do_read (10) ; if (bad.empty ()) do_seek (0, SEEK_END | SFM_WRITE) ; if (bad.empty ()) do_write (20) ; if (bad.empty ()) do_seek (0, SEEK_SET | SFM_READ) ; if (bad.empty ()) do_read (6) ; if (bad.empty ()) do_write (4) ; }
 	int inv = sf_verif_check_invariants (f) ; if (inv && bad.empty ()) bad = "invariant|mask " + std::to_string (inv) ;
@@ -229,7 +241,7 @@ int main (int argc, char **argv)
 	{	int fmt = rep_formats [i] ; int ch = channels_for (fmt) ; if (!fmt_check (fmt, ch)) continue ;
 		for (int wl = 0 ; wl < W_COUNT ; wl++)
 		{	if (wl == W_RDWR && !is_granular (fmt)) continue ;
-			for (int wt = 0 ; wt < 4 ; wt++) groups.push_back ({ fmt, ch, wl, wt }) ;
+			for (int wt = 0 ; wt < (wl == W_WRITE ? 5 : 4) ; wt++) groups.push_back ({ fmt, ch, wl, wt }) ;
 		}
 	}
 	bool failed = false ; long gi = 0 ;
